@@ -51,7 +51,7 @@ type compRes struct {
 	mnames   map[string]struct{} // manifest method names
 }
 
-const gasLimit = 3_000_000
+const gasLimit = 20_000_000 // instructions; the Go side bounds a call to 4000 loop iterations + function entries
 
 func neoSource(p *Prog) string {
 	var b strings.Builder
@@ -100,7 +100,7 @@ func runVM(script []byte, off, initOff int, e *Entry, args []int64) (res string,
 		}
 	}()
 	v := vm.New()
-	v.SetPriceGetter(func(opcode.Opcode, []byte) int64 { return 1 })
+	v.SetPriceGetter(func(opcode.Opcode, []byte) int64 { return vm.ExecFeeFactorMultiplier })
 	v.SetGasLimit(gasLimit)
 	v.LoadScriptWithFlags(script, callflag.All)
 	v.Context().Jump(off)
@@ -421,6 +421,10 @@ func main() {
 				v := cr.vmres[tk]
 				if !have {
 					o.Count("tuple:no-go-result")
+					continue
+				}
+				if g.long {
+					o.Count("tuple:excluded-step-budget")
 					continue
 				}
 				if g.ovf {
